@@ -60,7 +60,8 @@ class Session:
     def init_for(self, U, op, kind):
         if kind == "numpy":
             vals = dyn.gen_values(op["vals"], self.uspec, self.refs, op.get("neg", False), op.get("edge", False))
-            return dyn.numeric_init(U, vals, op.get("zero_d", False), op.get("alias"), share=U is self.U)
+            return dyn.numeric_init(U, vals, op.get("zero_d", False), op.get("alias"), share=U is self.U,
+                                    dtype=op.get("dtype"))
         if op.get("sym") == "caller":
             return dyn.symbolic_init(U, self.refs, kind.upper())
         return None
@@ -351,6 +352,10 @@ def gen_step(rng, cfg, kind=None, allow_fault=True, tier="quick"):
         op["zero_d"] = True if (merging and "delta" in op["opts"]) else rng.random() < 0.3
         if rng.random() < 0.1:
             op["edge"] = True
+        if rng.random() < 0.12:
+            op["dtype"] = "float32"
+        if op["zero_d"] is True and rng.random() < 0.25:
+            op["zero_d"] = "pyfloat"
         if "alias" in cfg["enabled"] and rng.random() < 0.3:
             links = [r for r in cfg["refs"] if r[0] == "l"]
             r1 = rng.choice(links)
@@ -458,6 +463,10 @@ def simplify_op(op: dict):
         o = dict(op); del o["neg"]; yield o
     if op.get("edge"):
         o = dict(op); del o["edge"]; yield o
+    if op.get("dtype"):
+        o = dict(op); del o["dtype"]; yield o
+    if op.get("zero_d") == "pyfloat":
+        yield dict(op, zero_d=True)
     if op["op"] == "step":
         opts = op["opts"]
         for k in list(opts):
